@@ -12,6 +12,7 @@ import (
 	"strconv"
 	"strings"
 	"sync"
+	"sync/atomic"
 	"time"
 )
 
@@ -402,10 +403,17 @@ func (w *Workspace) Rel(uri string) string {
 	return r
 }
 
+var wsTmpSeq int64
+
 func (w *Workspace) Write(rel, txt string) {
 	p := w.Path(rel)
 	os.MkdirAll(filepath.Dir(p), 0o755)
-	os.WriteFile(p, []byte(txt), 0o644)
+	// atomic replace (temp file outside the workspace root, then rename): a server that reads the file while the client
+	// is still flooding it with messages sees the old or the new content, never a truncated one
+	tmp := filepath.Join(filepath.Dir(w.Root), fmt.Sprintf("wtmp%d", atomic.AddInt64(&wsTmpSeq, 1)))
+	if err := os.WriteFile(tmp, []byte(txt), 0o644); err != nil || os.Rename(tmp, p) != nil {
+		os.WriteFile(p, []byte(txt), 0o644)
+	}
 	w.Files[rel] = txt
 }
 
